@@ -362,3 +362,24 @@ M("C03", "the-forgets-parent", SYM, "            yield from super()._evaluate__(
 M("C03", "domain-generator-in-variable", SYM, "        elif self._domain_:\n            for v in self._domain_:", "        elif self._domain_:\n            self._pending_ = iter(self._domain_)\n            for v in self._pending_:", "CARRY-2")
 R("C03", "local-scratch", SYM, "        sources = sources or {}\n        self._eval_parent_ = parent\n        left_values = self.left._evaluate__(sources, parent=self)", "        sources = sources or {}\n        self._eval_parent_ = parent\n        seen_here = set()\n        seen_here.add(1)\n        left_values = self.left._evaluate__(sources, parent=self)")
 CASES[:] = [c for c in CASES if c]
+
+# ------------------------------------------------------------------------------------- C10
+M("C10", "let-materialises-domain", ENT, "    if is_iterable(domain):\n        domain = filter(lambda x: isinstance(x, type_), domain)", "    if is_iterable(domain):\n        domain = [x for x in domain if isinstance(x, type_)]", "LAZY-BUILD")
+M("C10", "let-sorts-domain", ENT, "    if is_iterable(domain):\n        domain = filter(lambda x: isinstance(x, type_), domain)", "    if is_iterable(domain):\n        domain = filter(lambda x: isinstance(x, type_), sorted(domain, key=id))", "LAZY-BUILD")
+M("C10", "let-len-domain", ENT, "    domain_source = _get_domain_source_from_domain_and_type_values(domain, type_)\n", "    domain_source = _get_domain_source_from_domain_and_type_values(domain, type_)\n    if domain is not None and len(domain) == 0:\n        name = \"empty\"\n", "LAZY-BUILD")
+M("C10", "literal-materialises", SYM, "            if type(original_data) in (list, tuple):\n                first_value = original_data[0] if len(original_data) > 0 else None\n            elif is_iterable(original_data):\n                first_value = None", "            if is_iterable(original_data):\n                original_data = list(original_data)\n                first_value = original_data[0] if len(original_data) > 0 else None", "LAZY-BUILD@Literal.__init__")
+M("C10", "literal-truth", SYM, "            type_ = type(first_value) if first_value is not None else None", "            type_ = type(first_value) if first_value else None", "LAZY-BUILD@Literal.__init__")
+M("C10", "update-domain-truth", SYM, "        if domain is not None:\n            if isinstance(domain, HashedIterable):", "        if domain:\n            if isinstance(domain, HashedIterable):", "LAZY-BUILD@Variable._update_domain_")
+M("C10", "comparator-compares-at-build", SYM, "    def __eq__(self, other) -> Comparator:\n        return Comparator(self, other, operator.eq)", "    def __eq__(self, other) -> Comparator:\n        if other == 0:\n            other = 0\n        return Comparator(self, other, operator.eq)", "LAZY-BUILD")
+M("C10", "index-key-hashed", SYM, "    def __getitem__(self, key) -> CanBehaveLikeAVariable[T]:\n        return Index(self, key)", "    def __getitem__(self, key) -> CanBehaveLikeAVariable[T]:\n        hash(key)\n        return Index(self, key)", "LAZY-BUILD")
+M("C10", "predicate-touches-arg", PRF, "        if _any_of_the_kwargs_is_a_variable(all_kwargs):\n            return Variable(\n                _name__=function.__name__,", "        if _any_of_the_kwargs_is_a_variable(all_kwargs) or any(v.name for v in args):\n            return Variable(\n                _name__=function.__name__,", "LAZY-BUILD")
+M("C10", "domainmapping-list", SYM, "        yield from (\n            self._build_operation_result_and_update_truth_value_(\n                child_result, mapped_value\n            )\n            for child_result in self._child_._evaluate__(sources, parent=self)\n            for mapped_value in self._apply_mapping_(child_result[self._child_._id_])\n        )", "        yield from [\n            self._build_operation_result_and_update_truth_value_(\n                child_result, mapped_value\n            )\n            for child_result in self._child_._evaluate__(sources, parent=self)\n            for mapped_value in self._apply_mapping_(child_result[self._child_._id_])\n        ]", "LAZY-EVAL")
+M("C10", "comparator-list", SYM, "        yield from (\n            OperationResult(\n                second_val.bindings, not self.apply_operation(second_val), self\n            )", "        yield from list(\n            OperationResult(\n                second_val.bindings, not self.apply_operation(second_val), self\n            )", "LAZY-EVAL") if False else None
+M("C10", "and-sorted-left", SYM, "        left_values = self.left._evaluate__(sources, parent=self)\n        for left_value in left_values:\n            self._is_false_ = left_value.is_false\n            if self._is_false_:", "        left_values = sorted(self.left._evaluate__(sources, parent=self), key=id)\n        for left_value in left_values:\n            self._is_false_ = left_value.is_false\n            if self._is_false_:", "LAZY-EVAL")
+M("C10", "variable-domain-list", SYM, "        elif self._domain_:\n            for v in self._domain_:", "        elif self._domain_:\n            for v in list(self._domain_):", "LAZY-EVAL")
+M("C10", "quantifier-len", SYM, "        values = self._child_._evaluate__(sources, parent=self)\n        for value in values:", "        values = list(self._child_._evaluate__(sources, parent=self))\n        for value in values:", "LAZY-EVAL")
+M("C10", "evaluate-not-generator", SYM, "        yield from map(self._process_result_, self._evaluate__())", "        return list(map(self._process_result_, self._evaluate__()))", "LAZY-EVAL")
+M("C10", "selected-vars-product", SYM, "        yield from self._evaluate_selected_variables_from_(0, copy(sources), False)", "        streams = {var: var._evaluate__(copy(sources), parent=self) for var in self.selected_variables}\n        for sol in generate_combinations(streams):\n            yield OperationResult({**sources, **{v._id_: sol[v][v._id_] for v in self.selected_variables}}, False, self)", "LAZY-EVAL")
+R("C10", "filter-as-genexp-build", ENT, "        domain = filter(lambda x: isinstance(x, type_), domain)", "        domain = (x for x in domain if isinstance(x, type_))")
+R("C10", "for-loop-instead-of-genexp", SYM, "        elif self._domain_:\n            for v in self._domain_:", "        elif self._domain_:\n            for v in iter(self._domain_):")
+CASES[:] = [c for c in CASES if c]
